@@ -22,16 +22,18 @@
    The DEFAULT (Legacy = {}) is the code as it is now, i.e. after the repairs
    C16-F1 (index file touched last; a hash directory without index is a miss),
    C16-F4 (annotations written to a temporary file that is renamed over the old
-   one) and C16-F5 (log.csv created with its header via temporary file + rename).
-   The behaviour before the repairs is kept as named alternatives
-   (Legacy \subseteq {"IndexFirst", "InPlaceAnn", "InPlaceLogHeader"},
-   ModelDBLegacy.cfg) for the record: TLC still produces the historic
-   counterexamples of findings F1, F2, F4, F5 there.
+   one), C16-F5 + C16-F12 (log.csv created under the log lock, with its header,
+   via temporary file + rename) and C16-F11 (store_key tolerates a name created
+   concurrently).  The behaviour before the repairs is kept as named
+   alternatives (Legacy \subseteq {"IndexFirst", "InPlaceAnn",
+   "InPlaceLogHeader", "UnlockedLogTmp", "StrictSymlink"}; ModelDBLegacy.cfg,
+   and LegacyTwo for two processes) for the record: TLC still produces the
+   historic counterexamples of findings F1, F2, F4, F5, F11, F12 there.
 
    The ghost variable S is the abstract state of the property layer
    (ModelDBAbs.tla); the invariants Inv* say that what a reader WOULD obtain in
    every quiescent state is admitted by the property layer.  Those that hold
-   for the default are asserted in ModelDB.cfg; the others (InvD, InvName,
+   for the default are asserted in ModelDB.cfg / ModelDB2P.cfg; the others (InvD, InvName,
    InvNameNoCrash, InvLog: findings F3, F7, F6) are checked in separate runs,
    their counterexamples are design-level findings which the driver re-enacts
    on the real code.                                                         *)
@@ -151,19 +153,27 @@ InitDirs == \E p \in Proc :
     /\ Running(p, "Open", "InitDirs")          \* mkdir ctx, subcontexts, .modeldb; touch annotations; mkdir models
     /\ fs' = [fs EXCEPT !.ctxdirs = TRUE] /\ UNCHANGED vol
     /\ Step(p, "InitDirs", IF fs.loghdr # "absent" THEN "InitCommon"
-                           ELSE IF "InPlaceLogHeader" \in Legacy THEN "OpenLogHeader" ELSE "OpenLogTmp")
-\* -- as it is now: header written to log.tmp, renamed to log.csv
+                           ELSE IF "InPlaceLogHeader" \in Legacy THEN "OpenLogHeader"
+                           ELSE IF "UnlockedLogTmp" \in Legacy THEN "OpenLogTmp" ELSE "InitLogTouchLock")
+\* -- as it is now (C16-F5 + C16-F12): under the log lock, test again, header written to log.tmp, renamed to log.csv
+InitLogTouchLock == \E p \in Proc :
+    Running(p, "Open", "InitLogTouchLock") /\ UNCHANGED <<fs, vol>> /\ Step(p, "InitLogTouchLock", "InitLogLockEx")
+InitLogLockEx == \E p \in Proc :
+    /\ Running(p, "Open", "InitLogLockEx") /\ NoOtherHolds(p, {"log"}) /\ UNCHANGED fs
+    /\ IF fs.loghdr = "absent"                 \* `if not log_path.is_file()` inside the lock
+       THEN Vol(p, "held", "log") /\ Step(p, "InitLogLockEx", "OpenLogTmp")
+       ELSE UNCHANGED vol /\ Step(p, "InitLogLockEx", "InitCommon")          \* another constructor made it: unlock, go on
 OpenLogTmp == \E p \in Proc :
     /\ Running(p, "Open", "OpenLogTmp") /\ fs' = [fs EXCEPT !.logtmp = TRUE] /\ Vol(p, "openf", "tmp")
     /\ Step(p, "OpenLogTmp", "CloseLogTmp")
 CloseLogTmp == \E p \in Proc :
     /\ Running(p, "Open", "CloseLogTmp") /\ UNCHANGED fs /\ Vol(p, "openf", "none") /\ Step(p, "CloseLogTmp", "RenameLog")
 RenameLog == \E p \in Proc :
-    /\ Running(p, "Open", "RenameLog")          \* tmp_path.replace(log_path): the file appears complete
-    \* (the is_file() test was made at InitDirs and log.tmp is the same path for every constructor: of two racing
-    \*  constructors the second finds its temporary file gone - only reachable with two processes)
+    /\ Running(p, "Open", "RenameLog")          \* tmp_path.replace(log_path): the file appears complete; the lock is released
+    \* ("UnlockedLogTmp", before C16-F12: log.tmp is one path for every constructor and no lock is held - of two racing
+    \*  constructors the second finds its temporary file gone, or replaces a log that already holds lines)
     /\ IF fs.logtmp
-       THEN /\ fs' = [fs EXCEPT !.loghdr = "ok", !.loglines = <<>>, !.logtmp = FALSE] /\ UNCHANGED vol
+       THEN /\ fs' = [fs EXCEPT !.loghdr = "ok", !.loglines = <<>>, !.logtmp = FALSE] /\ Vol(p, "held", "none")
             /\ Step(p, "RenameLog", "InitCommon")
        ELSE UNCHANGED fs /\ Finish(p, "RenameLog", "error:FileNotFoundError")
 \* -- before repair C16-F5: open(log.csv, 'w'), then write the header
@@ -268,7 +278,9 @@ Symlink == \E p \in Proc :
     /\ Running(p, "Store", "Symlink")
     /\ IF fs.link[cur[p].n] = "none"
        THEN fs' = [fs EXCEPT !.link[cur[p].n] = cur[p].m] /\ UNCHANGED vol /\ Step(p, "Symlink", "AnnTouchLock")
-       ELSE UNCHANGED fs /\ Finish(p, "Symlink", "error:FileExistsError")     \* another process created it in between
+       ELSE /\ UNCHANGED fs                       \* another process created it in between: tolerated since C16-F11
+            /\ IF "StrictSymlink" \in Legacy THEN Finish(p, "Symlink", "error:FileExistsError")
+               ELSE UNCHANGED vol /\ Step(p, "Symlink", "AnnTouchLock")
 \* -- store_annotation: read all lines, write all lines to annotations.tmp, rename over annotations
 AnnTouchLock == \E p \in Proc : Running(p, "Store", "AnnTouchLock") /\ UNCHANGED <<fs, vol>> /\ Step(p, "AnnTouchLock", "AnnLockEx")
 AnnLockEx == \E p \in Proc :
@@ -360,7 +372,7 @@ Restart == \E p \in Proc :
     /\ steps' = [steps EXCEPT ![p] = <<>>]
     /\ UNCHANGED <<fs, vol, S, viol, hist, nops, ncrash>>
 
-OpenSteps == InitDirs \/ OpenLogTmp \/ CloseLogTmp \/ RenameLog \/ OpenLogHeader \/ WriteLogHeader \/ InitCommon
+OpenSteps == InitDirs \/ InitLogTouchLock \/ InitLogLockEx \/ OpenLogTmp \/ CloseLogTmp \/ RenameLog \/ OpenLogHeader \/ WriteLogHeader \/ InitCommon
 StoreSteps == \/ MkKeyDirs \/ TouchLock \/ LockEx \/ TouchPending \/ ListHashDir \/ ReadDatainfo \/ MkHashDir
               \/ ScanDatasetNumbers \/ TouchIndex \/ OpenCsv \/ CloseCsv \/ OpenDatainfo \/ CloseDatainfo
               \/ MkModelDir \/ OpenModel \/ CloseModel \/ MkMetaDir \/ OpenResults \/ CloseResults
@@ -433,7 +445,8 @@ OpsFull == OpsQuick \cup {St("m3", "na", "dC"), Lg("gB"), Rt("m2"), Rt("m3")}
 \* two processes: stores that share a dataset, a key or a name, one reader, one log message
 OpsTwo == {St("m1", "na", "dA"), St("m2", "nb", "dB"), St("m2", "na", "dB"), St("m3", "nc", "dC"), Lg("gA"), Rt("m1")}
 NamesAll == {"na", "nb", "nc"}
-LegacyAll == {"IndexFirst", "InPlaceAnn", "InPlaceLogHeader"}
+LegacyAll == {"IndexFirst", "InPlaceAnn", "InPlaceLogHeader", "StrictSymlink"}
+LegacyTwo == {"UnlockedLogTmp", "StrictSymlink"}     \* the code between the repairs C16-F5 and C16-F11/F12
 
 Letters == [A |-> InvA, D |-> InvD, I |-> InvI, Log |-> InvLog, Ann |-> InvAnn, Name |-> InvName]
 EmitCase == (TrackHist /\ Quiescent /\ nops >= 1) =>
